@@ -4,10 +4,10 @@ package main
 // c18.go / c19.go rules that need the lock engine live here too.
 
 import (
-	"reflect"
 	"fmt"
 	"go/token"
 	"go/types"
+	"reflect"
 	"strings"
 
 	"golang.org/x/tools/go/ssa"
@@ -184,6 +184,19 @@ func checkC14(R *Run) {
 				put = c
 			}
 		}
+		// the prefix value and where it is stored: PutUint16(f.FieldSize[:], V), or the two bytes spelled out —
+		// FieldSize[0] = byte(V >> 8), FieldSize[1] = byte(V)
+		var prefixVal ssa.Value
+		var putBlock *ssa.BasicBlock
+		if put != nil {
+			a := put.Call.Args
+			prefixVal, putBlock = stripConv(a[len(a)-1]), put.Block()
+		} else {
+			hi, lo, blk := bytePairStore(fn)
+			if hi != nil && lo != nil && stripConv(hi) == stripConv(lo) {
+				prefixVal, putBlock = stripConv(lo), blk
+			}
+		}
 		var problems []string
 		// smallFact: a branch fact that bounds v (or len of the slice v measures) by 65535 on an edge reaching pred
 		smallFact := func(same func(x ssa.Value) bool, pred *ssa.BasicBlock) bool {
@@ -224,15 +237,21 @@ func checkC14(R *Run) {
 			return nil, false
 		}
 		// sliceBounded: the slice value has at most 65535 elements when control arrives through pred
-		var sliceBounded func(v ssa.Value, pred *ssa.BasicBlock, d int) bool
+		var sliceBounded, intBounded func(v ssa.Value, pred *ssa.BasicBlock, d int) bool
 		sliceBounded = func(v ssa.Value, pred *ssa.BasicBlock, d int) bool {
-			if d > 4 {
+			if d > 10 {
 				return false
 			}
 			if sl, ok := v.(*ssa.Slice); ok && sl.High != nil {
 				if k, ok := constInt(sl.High); ok && k <= 65535 {
 					return true
 				}
+				if _, isConst := sl.High.(*ssa.Const); !isConst && intBounded(sl.High, pred, d+1) {
+					return true
+				}
+			}
+			if mk, ok := v.(*ssa.MakeSlice); ok {
+				return intBounded(stripConv(mk.Len), pred, d+1)
 			}
 			if m, ok := v.(*ssa.Phi); ok {
 				for i, e := range m.Edges {
@@ -245,9 +264,8 @@ func checkC14(R *Run) {
 			return smallFact(func(x ssa.Value) bool { a, ok := isLen(x); return ok && a == v }, pred)
 		}
 		// intBounded: the integer is at most 65535 when control arrives through pred
-		var intBounded func(v ssa.Value, pred *ssa.BasicBlock, d int) bool
 		intBounded = func(v ssa.Value, pred *ssa.BasicBlock, d int) bool {
-			if d > 4 {
+			if d > 10 {
 				return false
 			}
 			if k, ok := constInt(v); ok {
@@ -283,6 +301,14 @@ func checkC14(R *Run) {
 		// sameLength: two integer values that are the same quantity (one SSA value, or len of one slice value)
 		sameLength := func(a, b ssa.Value) bool {
 			a, b = stripConv(a), stripConv(b)
+			// len(make([]byte, n)) is n
+			for _, p := range []*ssa.Value{&a, &b} {
+				if x, ok := isLen(*p); ok {
+					if mk, isMk := x.(*ssa.MakeSlice); isMk {
+						*p = stripConv(mk.Len)
+					}
+				}
+			}
 			if a == b {
 				return true
 			}
@@ -290,11 +316,10 @@ func checkC14(R *Run) {
 			y, ok2 := isLen(b)
 			return ok1 && ok2 && x == y
 		}
-		if put == nil {
+		if prefixVal == nil {
 			problems = append(problems, "no PutUint16 of the size prefix found")
 		} else {
-			a := put.Call.Args
-			prefix := stripConv(a[len(a)-1])
+			prefix := prefixVal
 			// the bytes stored: Data = make([]byte, L) filled by copy(.., src) — or Data = v directly
 			var stored ssa.Value
 			eachInstr(fn, func(ins ssa.Instruction) {
@@ -337,7 +362,7 @@ func checkC14(R *Run) {
 					problems = append(problems, "the bytes stored are not the value whose length is put in the prefix")
 				}
 			}
-			if !intBounded(prefix, put.Block(), 0) {
+			if !intBounded(prefix, putBlock, 0) {
 				problems = append(problems, "the length put in the 16-bit prefix is not bounded by 65535 on every path (a longer field gets a wrapped prefix while all its bytes are emitted)")
 			}
 		}
@@ -1058,6 +1083,11 @@ func checkC18(R *Run) {
 				sortCall = ci
 			case "io.ReadAll":
 				encodeLoopRead = ci
+			case "slices.Concat":
+				// the entry encoded in place (its encoder expanded here)
+				if encodeLoopRead == nil {
+					encodeLoopRead = ci
+				}
 			}
 		}
 		ok := sortCall != nil && encodeLoopRead != nil && instrDominates(sortCall.(ssa.Instruction), encodeLoopRead.(ssa.Instruction))
@@ -1068,7 +1098,21 @@ func checkC18(R *Run) {
 			for _, cb := range funcArgsPassed(sortCall) {
 				ids := 0
 				for _, cj := range callsIn(cb) {
-					if strings.HasSuffix(calleeName(cj.Common()), ".Uint32") {
+					if n := calleeName(cj.Common()); n == "bytes.Compare" {
+						// the IDs are fixed-width big-endian: comparing their bytes is comparing their values
+						for _, a := range cj.Common().Args {
+							if P.reaches(a, func(x ssa.Value) bool {
+								fa, isFa := x.(*ssa.FieldAddr)
+								if !isFa {
+									return false
+								}
+								f, _ := fieldOf(fa)
+								return f == "hotline.NewsArtList.ID"
+							}) {
+								ids++
+							}
+						}
+					} else if strings.HasSuffix(n, ".Uint32") {
 						if P.reaches(cj.Common().Args[len(cj.Common().Args)-1], func(x ssa.Value) bool {
 							fa, isFa := x.(*ssa.FieldAddr)
 							if !isFa {
@@ -1261,4 +1305,94 @@ func bytesPreserved(v ssa.Value, depth int) (bool, string) {
 		}
 	}
 	return false, "an unrecognised step (" + v.Name() + ")"
+}
+
+// bytePairStore finds, in fn, the pair of stores that spell a big-endian uint16 into a two-byte array:
+// x[0] = byte(V >> 8) and x[1] = byte(V) on the same array. It returns the two V operands and the block of the
+// low-byte store.
+func bytePairStore(fn *ssa.Function) (hi, lo ssa.Value, blk *ssa.BasicBlock) {
+	type pair struct {
+		hi, lo ssa.Value
+		blk    *ssa.BasicBlock
+	}
+	byBase := map[ssa.Value]*pair{}
+	eachInstr(fn, func(ins ssa.Instruction) {
+		st, ok := ins.(*ssa.Store)
+		if !ok {
+			return
+		}
+		ia, ok := st.Addr.(*ssa.IndexAddr)
+		if !ok {
+			return
+		}
+		arr, ok := derefType(ia.X.Type()).Underlying().(*types.Array)
+		if !ok || arr.Len() != 2 {
+			return
+		}
+		idx, ok := constInt(ia.Index)
+		if !ok {
+			return
+		}
+		cv, ok := st.Val.(*ssa.Convert)
+		if !ok {
+			return
+		}
+		p := byBase[ia.X]
+		if p == nil {
+			p = &pair{}
+			byBase[ia.X] = p
+		}
+		switch idx {
+		case 0:
+			if sh, ok := cv.X.(*ssa.BinOp); ok && sh.Op == token.SHR {
+				if k, ok := constInt(sh.Y); ok && k == 8 {
+					p.hi = sh.X
+				}
+			}
+		case 1:
+			p.lo, p.blk = cv.X, st.Block()
+		}
+	})
+	for _, p := range byBase {
+		if p.hi != nil && p.lo != nil {
+			return p.hi, p.lo, p.blk
+		}
+	}
+	return nil, nil, nil
+}
+
+// bytePairInto: the value V whose big-endian bytes the two stores base[0] = byte(V>>8), base[1] = byte(V) spell
+// into the given two-byte array, and the low-byte store; nil when base is not written that way.
+func bytePairInto(fn *ssa.Function, base ssa.Value) (ssa.Value, *ssa.Store) {
+	var hi, lo ssa.Value
+	var loStore *ssa.Store
+	eachInstr(fn, func(ins ssa.Instruction) {
+		st, ok := ins.(*ssa.Store)
+		if !ok {
+			return
+		}
+		ia, ok := st.Addr.(*ssa.IndexAddr)
+		if !ok || ia.X != base {
+			return
+		}
+		idx, ok := constInt(ia.Index)
+		cv, isCv := st.Val.(*ssa.Convert)
+		if !ok || !isCv {
+			return
+		}
+		switch idx {
+		case 0:
+			if sh, ok := cv.X.(*ssa.BinOp); ok && sh.Op == token.SHR {
+				if k, ok := constInt(sh.Y); ok && k == 8 {
+					hi = sh.X
+				}
+			}
+		case 1:
+			lo, loStore = cv.X, st
+		}
+	})
+	if hi != nil && lo != nil && stripConv(hi) == stripConv(lo) {
+		return lo, loStore
+	}
+	return nil, nil
 }
